@@ -6,8 +6,10 @@
 #include "utf_iterator.h"
 #include <booster/locale/utf.h>
 #include <cppcms/encoding.h>
+#include <booster/locale.h>
 #include <memory>
 #include <vector>
+#include <map>
 
 typedef booster::locale::utf::utf_traits<char> btraits;
 
@@ -106,6 +108,21 @@ static std::string run(std::vector<std::string> const &w)
 		// the char const* overload sees the name up to the first NUL, as does the comparator
 		if(r1!=r2 || c1!=c2) return "overload-mismatch";
 		return std::string(r1?"1 ":"0 ")+std::to_string(c1);
+	}
+	if(w.size()==3 && w[0]=="vloc") {
+		// the overload form.cpp uses: the encoding name comes from the locale's info facet
+		std::string name,a; if(!vh::unhex(w[1],name) || !vh::unhex(w[2],a)) return "bad-op";
+		static booster::locale::generator gen;
+		static std::map<std::string,std::locale> cache;
+		std::map<std::string,std::locale>::iterator it=cache.find(name);
+		if(it==cache.end()) it=cache.insert(std::make_pair(name,gen("en_US."+name))).first;
+		std::string enc=std::use_facet<booster::locale::info>(it->second).encoding();
+		if(!encoding::is_ascii_compatible(enc)) return "ext";
+		heapbuf hb(a);
+		char const *b=hb.p.get();
+		size_t c=0;
+		bool r=encoding::valid(it->second,b,b+a.size(),c);
+		return std::string(r?"1 ":"0 ")+std::to_string(c);
 	}
 	if(w.size()==4 && w[0]=="filt") {
 		std::string name,rp,a; if(!vh::unhex(w[1],name) || !vh::unhex(w[2],rp) || rp.size()!=1 || !vh::unhex(w[3],a)) return "bad-op";
